@@ -20,14 +20,15 @@ except Exception:                                            # pragma: no cover
 
 NEW_OPS = ["sm9_sign_master_keygen", "sm9_enc_master_keygen", "sm9_smk_info_der", "sm9_smk_info_pem", "sm9_sk_info_der", "sm9_sk_info_pem",
            "sm9_emk_info_der", "sm9_emk_info_pem", "sm9_ek_info_der", "sm9_ek_info_pem", "sm2_pkcs8_pem", "x509_req_sign", "x509_crl_sign",
-           "cms_sign_envelop", "cms_rcpt_info", "sm2_enc_precomp", "sm9_fp12_rand", "xmss_keygen"]
+           "cms_sign_envelop", "cms_rcpt_info", "sm2_enc_precomp", "sm9_fp12_rand", "xmss_keygen",
+           "sm2_do_sign", "sm2_sign_fixlen", "sm2_do_encrypt", "sm2_do_encrypt_fixlen", "sm2_encrypt_fixlen", "sm2_fast_sign_pool", "sm9_do_sign", "sm9_kem"]
 SLOW = {"xmss_keygen"}                     # seconds per run under ASan: count + every draw index + one fresh pair only
 C19_ONLY_OPS = {"pkcs8_wrongpass", "tls_cbc_badmac"}
 OPS = ["sm2_keygen", "sm2_sign", "sm2_sign_ctx", "sm2_sign_ctx_multi", "sm2_encrypt", "sm2_ecdhe", "sm9_sign", "sm9_encrypt", "sm9_exchange",
        "pkcs8", "x509_sign", "cms_sign", "cms_envelop", "tls_cbc", "tls_record", "tls_random", "tls_pms",
        "tls_ske_sign", "tls13_cv_sign", "tls13_padding"] + NEW_OPS
 # operations whose first entropy draw is a rejection-sampled scalar (nonce or private key)
-RR_FIRST = ["sm2_keygen", "sm2_sign", "sm2_encrypt", "sm2_ecdhe", "sm2_sign_ctx", "sm2_enc_precomp", "tls_ske_sign", "tls13_cv_sign", "x509_sign", "cms_sign",
+RR_FIRST = ["sm2_do_sign", "sm2_sign_fixlen", "sm2_do_encrypt", "sm2_do_encrypt_fixlen", "sm2_encrypt_fixlen", "sm2_fast_sign_pool", "sm9_do_sign", "sm9_kem", "sm2_keygen", "sm2_sign", "sm2_encrypt", "sm2_ecdhe", "sm2_sign_ctx", "sm2_enc_precomp", "tls_ske_sign", "tls13_cv_sign", "x509_sign", "cms_sign",
             "cms_envelop", "cms_rcpt_info", "sm9_sign", "sm9_encrypt", "sm9_exchange", "sm9_sign_master_keygen", "sm9_enc_master_keygen"]
 NOENT = ["cms_encrypt", "tls13_gcm"]
 HEAVY = {"sm9_sign", "sm9_encrypt", "sm9_exchange", "pkcs8"} | {o for o in NEW_OPS if o.startswith("sm9_") and o != "sm9_fp12_rand"} | {"sm2_pkcs8_pem", "xmss_keygen"}
@@ -158,9 +159,11 @@ def coverage_part(ctx, stats):
                 continue
             out.add(f)
             work.extend(g for g in fwd.get(f, ()) if g in fdefs and g not in out)
+        DIRECT.update(direct)
         return out
+    DIRECT = set()
     try:
-        cov = reached("harness.c", ["op_*", "ctx_step", "do_recover"]) | reached("hs_harness.c", ["role"])
+        cov = reached("harness.c", ["op_*", "ctx_step", "do_recover", "handle"]) | reached("hs_harness.c", ["role"])
     except Exception as e:
         ctx.violation("coverage:analysis", "cannot analyse the harness sources: %r" % (e,), {"kind": "internal", "error": repr(e)}, False)
         return
@@ -174,6 +177,24 @@ def coverage_part(ctx, stats):
     for f in unc:
         ctx.violation("uncovered:" + f, "%s() (%s) depends on the entropy source and is exported, but no harness operation reaches it: its draws are never made to fail" % (
             f, fdefs[f]["file"]), {"kind": "table-row", "theorem_or_file": "coverage of E by props/C18/harness.c + hs_harness.c", "row": {"function": f, "file": fdefs[f]["file"]}}, False)
+    # every member of E that a public header declares must be CALLED DIRECTLY by some operation (rarely used low-level entry points —
+    # pre-compute / _ex / do_ / fixlen variants — have their own status handling), unless waived here with a reason
+    waived = {f: "handshake entry point, dispatched by tls_do_handshake in the handshake harness" for f in
+              ("tlcp_do_accept", "tlcp_do_connect", "tls12_do_accept", "tls12_do_connect", "tls13_do_accept", "tls13_do_connect")}
+    waived.update({f: "inner CMS builder with a 15+ argument interface; every draw is injected through cms_sign / cms_envelop / cms_sign_and_envelop" for f in
+                   ("cms_enveloped_data_encrypt_to_der", "cms_recipient_info_encrypt_to_der", "cms_signed_and_enveloped_data_encipher_to_der",
+                    "cms_signed_data_sign_to_der", "cms_signer_info_sign_to_der", "cms_signer_infos_add_signer_info")})
+    waived.update({f: "called by sm9_z256_fp12_rand (op sm9_fp12_rand) only; same three-line shape" for f in ("sm9_z256_fp2_rand", "sm9_z256_fp4_rand")})
+    waived.update({"sm9_do_encrypt": "wrapper of sm9_kem_encrypt (op sm9_kem) + symmetric part; reached through sm9_encrypt"})
+    ctx.cov["indirectly_covered_waived"] = waived
+    for f in exported:
+        if f in stats["header_decls"] and f in cov and f not in DIRECT:
+            ctx.cov["evaluations"] += 1
+            if f in waived:
+                ctx.cell("indirect-only:waived")
+            else:
+                ctx.violation("indirect-only:" + f, "%s() is a public entry point that draws entropy but no harness operation calls it directly (only through other functions)" % f,
+                              {"kind": "table-row", "theorem_or_file": "direct coverage of public entropy-dependent entry points", "row": {"function": f}}, False)
     # every exported member of E that works on a caller-held mutable context must be used REPEATEDLY on one context
     # (ctx_step of `recover`, or a *_multi operation): nonce pools live there
     try:
@@ -271,9 +292,12 @@ def phase1(ctx):
     # ---- wave 2: the same context / stream used again after an entropy failure
     sd = lambda: r.below(10**6) + 256
     for pre in ([0, 1, 31, 32, 33, 64] if not thorough else [0, 1, 2, 16, 31, 32, 33, 63, 64, 65]):
-        rels = [0] if pre % 32 else ([0, 1, 15, 30, 31] if not thorough else list(range(32)))
+        rels = [0] if pre % 32 else list(range(32))           # a one-shot failure at EVERY draw of a pool (re)fill
         for rel in rels:
             cs.append(("recover sm2_sign_ctx %d %d %d 40" % (sd(), pre, rel), "recover:sm2_sign_ctx:pre=%s:%s" % (pre if pre % 32 else "32k", "first" if rel == 0 else ("last" if rel == 31 else "middle"))))
+    for pre in (0, 1, 5, 32, 40):                               # re-initialisation of a used context, failing at every draw of its fill
+        for rel in (range(32) if pre in (5, 32) or thorough else (0, 1, 30, 31)):
+            cs.append(("recover sm2_sign_ctx_reinit %d %d %d 40" % (sd(), pre, rel), "recover:sm2_sign_ctx_reinit:pre=%d:%s" % (pre, "first" if rel == 0 else ("last" if rel == 31 else "middle"))))
     for kind, pres in (("sm2_sign_ctx_fixlen", (0, 1, 31, 32, 33)), ("sm9_sign_ctx", (0, 2))):
         for pre in pres:
             for rel in ((0,) if kind.startswith("sm9") or pre % 32 else (0, 15, 31)):
